@@ -61,8 +61,7 @@ class Ctx:
         self.pending = []
         self.float_mode = False
         self.max_paths = None
-        self.forced_global = {}
-        self.forced_path = {}
+        self.dcache = {}
 
     def assume(self, b):
         if isinstance(b, bool):
@@ -136,44 +135,39 @@ class Ctx:
         i = len(self.trace)
         if i < len(self.prefix):
             k, c, t = self.prefix[i]
-            if k == "f":
-                k = "d"
             if k != kind or (t is not None and tag is not None and t != tag):
                 raise Desync(f"choice point {i}: recorded {k}/{t}, now {kind}/{tag}")
             return c
         return None
 
     def decide(self, b):
+        """Truth value of a symbolic Boolean on the current path.  Forced outcomes (one side infeasible
+        under the path condition) leave no trace entry, so sign-analysis shortcuts taken on a later
+        re-execution cannot desynchronise the prefix; only real forks are choice points."""
         if isinstance(b, bool):
             return b
         b = vq._simp(b)
         if isinstance(b, bool):
             return b
+        key = (b.get_id(),) + tuple(x.get_id() for x in self.pc)
+        hit = self.dcache.get(key)
+        if hit is None:
+            t_ok = self.feasible(b)
+            f_ok = self.feasible(z3.Not(b)) if t_ok else True
+            hit = (t_ok, f_ok, b, list(self.pc))   # keep the terms alive: ast ids stay unique
+            self.dcache[key] = hit
+        t_ok, f_ok = hit[0], hit[1]
+        if not (t_ok and f_ok):
+            return bool(t_ok)
         tag = b.hash()
         c = self._next("d", 2, tag)
         if c is None:
-            bid = b.get_id()
-            hit = self.forced_global.get(bid) or self.forced_path.get(bid)
-            if hit is not None:
-                self.trace.append(("f", 0 if hit[1] else 1, tag))
-                return hit[1]
-            t_ok = self.feasible(b)
-            f_ok = self.feasible(z3.Not(b)) if t_ok else True
-            if t_ok and f_ok:
-                self.stats["forks"] += 1
-                self.pending.append(self.trace + [("d", 1, tag)])
-                self.trace.append(("d", 0, tag))
-                self.pc.append(b)
-                return True
-            v = bool(t_ok)
-            (self.forced_path if self.pc else self.forced_global)[bid] = (b, v)
-            self.trace.append(("f", 0 if v else 1, tag))
-            return v
-        kind = self.prefix[len(self.trace)][0]
-        self.trace.append((kind, c, tag))
+            self.stats["forks"] += 1
+            self.pending.append(self.trace + [("d", 1, tag)])
+            c = 0
+        self.trace.append(("d", c, tag))
         v = (c == 0)
-        if kind == "d":
-            self.pc.append(b if v else z3.Not(b))
+        self.pc.append(b if v else z3.Not(b))
         return v
 
     def sentinel(self, logobj):
@@ -240,7 +234,6 @@ class Ctx:
             self.trace = []
             self.pc = []
             self.probs = []
-            self.forced_path = {}
             if before_path is not None:
                 before_path()
             try:
